@@ -28,23 +28,40 @@ impl ChaCha20Rng {
     { unimplemented!() }
     #[verifier::external_body]
     pub fn from_seed(seed: [u8; 32]) -> (g: ChaCha20Rng) ensures !g.entropy_seeded() { unimplemented!() }
-    #[verifier::external_body]
-    pub fn gen<T: DrawTarget>(&mut self) -> (t: T)
-        ensures
-            t.drawn() == draw_bytes(old(self).state(), T::width()),
-            final(self).state() == next_state(old(self).state()),
-            final(self).entropy_seeded() == old(self).entropy_seeded(),
-            final(self).origin() == old(self).origin(),
-    { unimplemented!() }
 }
 /// a generator obtained from OS entropy in this call and not yet drawn from
 pub open spec fn fresh_rng(g: ChaCha20Rng) -> bool {
     g.entropy_seeded() && g.state() == g.origin() && exists|c: int| g.origin() == #[trigger] os_entropy_state(c)
 }
-impl Scalar {
-    /// `Field::random(rng)` consumes or borrows the generator; by-value form
+/// E3e: what an `impl RngCore + CryptoRng` argument can be: the generator itself or `&mut` of it
+pub trait RngArg: Sized {
+    /// the generator state the next draw is taken from
+    spec fn st(&self) -> int;
+    spec fn seeded(&self) -> bool;
+    /// true for the generator itself, false for a `&mut` borrow of one (whose later state is not
+    /// tracked through a by-value call)
+    spec fn by_value(&self) -> bool;
+    fn gen<T: DrawTarget>(&mut self) -> (t: T)
+        ensures t.drawn() == draw_bytes(old(self).st(), T::width()), (*final(self)).st() == next_state(old(self).st()), (*final(self)).seeded() == old(self).seeded();
+}
+impl RngArg for ChaCha20Rng {
+    open spec fn st(&self) -> int { self.state() }
+    open spec fn seeded(&self) -> bool { self.entropy_seeded() }
+    open spec fn by_value(&self) -> bool { true }
     #[verifier::external_body]
-    pub fn random(rng: ChaCha20Rng) -> (s: Scalar) ensures s == draw_scalar(rng.state()) { unimplemented!() }
+    fn gen<T: DrawTarget>(&mut self) -> (t: T) { unimplemented!() }
+}
+impl<'a> RngArg for &'a mut ChaCha20Rng {
+    open spec fn st(&self) -> int { (**self).state() }
+    open spec fn seeded(&self) -> bool { (**self).entropy_seeded() }
+    open spec fn by_value(&self) -> bool { false }
+    #[verifier::external_body]
+    fn gen<T: DrawTarget>(&mut self) -> (t: T) { unimplemented!() }
+}
+impl Scalar {
+    /// `Field::random(rng)`: one draw from the generator's current state
+    #[verifier::external_body]
+    pub fn random<R: RngArg>(rng: R) -> (s: Scalar) ensures rng.by_value() ==> s == draw_scalar(rng.st()) { unimplemented!() }
 }
 impl<const N: usize> AsRefBytes for [u8; N] {
     open spec fn bytes(&self) -> Seq<u8> { self@ }
